@@ -102,3 +102,9 @@ func DspSSE(a, b []byte, w, h, sa, sb int) uint64 { return dsp.SSE(a, b, w, h, s
 func DspUpsampleLinePair(topY, botY, topU, topV, botU, botV, topDst, botDst []byte, width int) {
 	dsp.UpsampleLinePair(topY, botY, topU, topV, botU, botV, topDst, botDst, width)
 }
+
+// DspDecFilter runs one of the lossy decoder's own loop-filter primitives
+// (decode_frame.go), see lossy.VerifDecFilter.
+func DspDecFilter(kind string, p []byte, base, bps, n, thresh, ithresh, hevThresh int) {
+	lossy.VerifDecFilter(kind, p, base, bps, n, thresh, ithresh, hevThresh)
+}
